@@ -148,12 +148,14 @@ class _Recording(dict):
         return super().__getitem__(k)
 
 
-def run_unit(unit: Unit, forced: Optional[int] = None) -> UnitResult:
+def run_unit(unit: Unit, forced: Optional[int] = None, fn_override=None) -> UnitResult:
     mod, qual = unit.target.split(":")
     loc = find_function(mod, qual)
     if loc is None:
         return UnitResult(unit, found=False, error=f"unit {unit.target} not found in {module_path(mod)}")
     fn, src, path = loc
+    if fn_override is not None:
+        fn = fn_override  # in-memory mutant of the extracted AST (mutation audit)
     seg = ast.get_source_segment(src, fn) or "\n".join(src.splitlines()[fn.lineno - 1:fn.end_lineno])
     res = UnitResult(unit, found=True, file=os.path.relpath(path, REPO), lines=(fn.lineno, fn.end_lineno), src_hash=hashlib.sha256(seg.encode()).hexdigest()[:16])
     ctx = Ctx(unit.name, class_table())
@@ -340,3 +342,74 @@ def make_ob(name: str, kind: str, hyps: list, goal, watch: Optional[dict] = None
     if timeout_s:
         m["timeout_s"] = timeout_s
     return {"name": name, "kind": kind, "path": 0, "smt2": s.to_smt2(), "watch": {k: v.sexpr() for k, v in (watch or {}).items()}, "meta": m}
+
+
+def _mut_worker(task):
+    """Re-verify one in-memory mutant of a unit -> (description, verdict) with verdict in killed-refuted / killed-undecided / survived / not-applicable."""
+    import importlib
+    import sys
+    from . import VERIF, mutate, solve
+    if VERIF not in sys.path:
+        sys.path.insert(0, VERIF)
+    modname, idx, op, ordinal, desc = task
+    unit = importlib.import_module(modname).UNITS[idx]
+    try:
+        mod, qual = unit.target.split(":")
+        fn = find_function(mod, qual)[0]
+        mutant = mutate.apply(fn, op, ordinal)
+        if mutant is None:
+            return desc, "not-applicable"
+        verdicts = set()
+        for forced in (range(unit.split) if unit.split else [None]):
+            res = run_unit(unit, forced, fn_override=mutant)
+            if res.undecided:
+                verdicts.add("killed-undecided")
+            ser = serialize(res)
+            jobs = [{"smt2": o["smt2"], "timeout_s": 10, "strings": o["meta"].get("strings", False), "pre_verdict": o["meta"].get("pre_verdict", "")} for o in ser["obligations"] if o["kind"] != "canary"]
+            for r in solve.solve_all(jobs, workers=2):
+                if r["verdict"] == "sat":
+                    verdicts.add("killed-refuted")
+                elif r["verdict"] != "unsat":
+                    verdicts.add("killed-undecided")
+            for cov in unit.expect_cover:
+                if not any(k == cov or k.startswith(cov) for k in res.covers) and not unit.split:
+                    verdicts.add("killed-undecided")
+        if "killed-refuted" in verdicts:
+            return desc, "killed-refuted"
+        if "killed-undecided" in verdicts:
+            return desc, "killed-undecided"
+        return desc, "survived"
+    except Exception as ex:  # a mutant that crashes the generator counts as undecided, not as killed by a counter-model
+        return desc, "killed-undecided"
+
+
+def mutation_audit(modname: str, units_list: List[Unit], budget_per_unit: int = 40, workers: int = 16, skip=()) -> List[dict]:
+    import multiprocessing as mp
+    from . import mutate
+    tasks, per_unit = [], {}
+    for i, u in enumerate(units_list):
+        if u.name in skip:
+            continue
+        mod, qual = u.target.split(":")
+        loc = find_function(mod, qual)
+        if loc is None:
+            continue
+        cands = mutate.candidates(loc[0])
+        step = max(1, len(cands) // budget_per_unit)
+        chosen = cands[::step][:budget_per_unit]
+        per_unit[i] = {"unit": u.name, "candidates": len(cands), "run": len(chosen), "killed_refuted": 0, "killed_undecided": 0, "survived": 0, "survivors": []}
+        tasks.extend((modname, i, op, n, desc) for op, n, desc in chosen)
+    if not tasks:
+        return []
+    with mp.get_context("fork").Pool(min(workers, len(tasks))) as pool:
+        results = pool.map(_mut_worker, tasks, chunksize=1)
+    for (m, i, op, n, desc), (_, verdict) in zip(tasks, results):
+        r = per_unit[i]
+        if verdict == "survived":
+            r["survived"] += 1
+            r["survivors"].append(desc)
+        elif verdict == "killed-refuted":
+            r["killed_refuted"] += 1
+        elif verdict == "killed-undecided":
+            r["killed_undecided"] += 1
+    return list(per_unit.values())
